@@ -2,11 +2,11 @@
 # usage: ./run_all.sh [quick|thorough] [props...]   -- runs the checks one after another and prints a summary
 tier=${1:-quick}; shift
 props=${*:-C01 C03 C04 C05 C06 C07 C08 C09 C10 C12 C13 C14 C15 C16 C17 C19}
-mkdir -p /verif/.work/logs
+here=$(cd "$(dirname "$0")" && pwd); cd "$here"; mkdir -p .work/logs
 for p in $props; do
   start=$(date +%s)
-  ./check $p $tier > /verif/.work/logs/$p.$tier.log 2>&1
+  ./check $p $tier > .work/logs/$p.$tier.log 2>&1
   rc=$?
   end=$(date +%s)
-  echo "$p rc=$rc $((end-start))s $(grep -c '^VIOLATION' /verif/.work/logs/$p.$tier.log) violations, $(grep -c '^KNOWN-FINDING' /verif/.work/logs/$p.$tier.log) known, $(grep -c 'INCONCLUSIVE\|INCOMPLETE' /verif/.work/logs/$p.$tier.log) inconclusive-lines, $(grep -c SPURIOUS /verif/.work/logs/$p.$tier.log) spurious"
+  echo "$p rc=$rc $((end-start))s $(grep -c '^VIOLATION' .work/logs/$p.$tier.log) violations, $(grep -c '^KNOWN-FINDING' .work/logs/$p.$tier.log) known, $(grep -c 'INCONCLUSIVE\|INCOMPLETE' .work/logs/$p.$tier.log) inconclusive-lines, $(grep -c SPURIOUS .work/logs/$p.$tier.log) spurious"
 done
